@@ -395,11 +395,11 @@ FO_STEPS = [
 FO_VARS = {'P': "'a => bool", 'Q': "'a => bool"}
 
 
-def first_gap(state):
-    for it in all_items(state.prf):
-        if it.rule == 'sorry':
-            return it
-    return None
+def first_gap(state, last=False):
+    gaps = [it for it in all_items(state.prf) if it.rule == 'sorry']
+    if not gaps:
+        return None
+    return gaps[-1] if last else gaps[0]
 
 
 def check_state(state, goal_th, label):
@@ -429,6 +429,18 @@ def check_state(state, goal_th, label):
     gaps_expected = sorted(str(it.th) for it in all_items(state.prf) if it.rule == 'sorry')
     if sorted(str(g) for g in rpt.gaps) != gaps_expected:
         return 'method-gaps', '%s: re-check reports gaps %s, open gaps %s' % (label, rpt.gaps, gaps_expected)
+    # copy isolation probe: insert a line at the top of a *copy* (which renumbers every line and citation of the copy);
+    # the state itself must not move -- whatever the methods shared between a state and its copies would show here
+    snap = [(str(i.id), i.rule, [str(q) for q in i.prevs], str(i.th), str(i.args)) for i in all_items(state.prf)]
+    try:
+        c2 = copy(state)
+        c2.add_line_before(ItemID_((0,)), 1)
+    except Exception:
+        pass
+    now = [(str(i.id), i.rule, [str(q) for q in i.prevs], str(i.th), str(i.args)) for i in all_items(state.prf)]
+    if now != snap:
+        diff = [(a, b_) for a, b_ in zip(snap, now) if a != b_][:1]
+        return 'method-copy', '%s: renumbering a copy of the state (a line inserted at the top) changed the state itself: %s' % (label, diff)
     last = state.prf.items[-1].th
     if last is None or last.prop != goal_th.prop or set(last.hyps) != set(goal_th.hyps):
         return 'method-goal', '%s: last line is %s, original goal %s' % (label, last, goal_th)
@@ -454,7 +466,7 @@ def check_state(state, goal_th, label):
     return None
 
 
-def run_sequence(goal, seq, on_copy_at, fo=False):
+def run_sequence(goal, seq, on_copy_at, fo=False, lastgap=()):
     """-> (kind, why) or None; seq: list of indices into STEPS; on_copy_at: index of the step applied to a copy (or None)."""
     from logic import context
     from server import server, method
@@ -470,7 +482,7 @@ def run_sequence(goal, seq, on_copy_at, fo=False):
         return bad
     applied = []
     for n, si in enumerate(seq):
-        gap = first_gap(state)
+        gap = first_gap(state, last=(n in lastgap))      # steps listed in lastgap work on the last open gap instead of the first
         if gap is None:
             break
         step = dict(STEPS_[si])
@@ -527,20 +539,24 @@ def run_methods(u, out, twin):
             # quick: all sequences of length <= 2, plus a seeded sample of the length-3 sequences
             seqs = random.Random('c13m-%s-%s' % (gi, fo)).sample(seqs, min(len(seqs), 160))
         for seq in seqs:
-            for cp in (None, l - 1):
+            # (copy position, steps working on the last gap): with two steps also the orders "later gap first, then the earlier one"
+            variants = [(None, ()), (l - 1, ())]
+            if l == 2:
+                variants += [(None, (0,)), (1, (0,))]
+            for cp, lastgap in variants:
                 out['evals'] += 1
-                out['keys'].add('m|%d|%s|%s' % (gi, seq, cp))
+                out['keys'].add('m|%d|%s|%s|%s' % (gi, seq, cp, lastgap))
                 if twin:
                     if l == 1 and cp is None:
                         out['cex'].append({'kind': 'twin', 'goal': gi, 'seq': list(seq)})
                     continue
                 try:
-                    bad = run_sequence(goal, seq, cp, fo)
+                    bad = run_sequence(goal, seq, cp, fo, lastgap)
                 except Exception as e:
                     bad = None
                     out.setdefault('errors', []).append('sequence %s on %s crashed the harness: %r' % (seq, goal, e))
                 if bad:
-                    out['cex'].append({'kind': bad[0], 'goal': gi, 'fo': fo, 'seq': list(seq), 'copy_at': cp, 'why': bad[1], 'sig': '%s|%s|%d|%s' % (bad[0], fo, gi, bad[1][:80])})
+                    out['cex'].append({'kind': bad[0], 'goal': gi, 'fo': fo, 'seq': list(seq), 'copy_at': cp, 'lastgap': list(lastgap), 'why': bad[1], 'sig': '%s|%s|%d|%s' % (bad[0], fo, gi, bad[1][:80])})
                     if len(out['cex']) >= 10:
                         return
     out['samples'].append({'goal': goal, 'sequence': [STEPS_[i]['method_name'] for i in seq]})
@@ -589,5 +605,5 @@ def replay(c):
         return replay_edit(c)
     fo = c.get('fo', False)
     G, S_ = (FO_GOALS, FO_STEPS) if fo else (GOALS, STEPS)
-    bad = run_sequence(G[c['goal']], c['seq'], c.get('copy_at'), fo)
+    bad = run_sequence(G[c['goal']], c['seq'], c.get('copy_at'), fo, tuple(c.get('lastgap', ())))
     return (bad is not None and bad[0] == c['kind']), 'goal %s, steps %s (applied to a copy at step %s): %s' % (G[c['goal']], [S_[i] for i in c['seq']], c.get('copy_at'), bad)
